@@ -52,6 +52,16 @@ pub fn make_where_clause<'a>(
             predicates: Punctuated::new(),
         });
 
+    // `'static` bounds are always required for lifetime parameters, because of the requirement
+    // on `std::any::TypeId::of`; they are independent of any custom bounds.
+    for lifetime_param in generics.lifetimes() {
+        // Only the lifetime itself: a `LifetimeParam` may carry its own bounds (`'b: 'a`).
+        let lifetime = &lifetime_param.lifetime;
+        where_clause
+            .predicates
+            .push(parse_quote!(#lifetime: 'static))
+    }
+
     // Use custom bounds as where clause.
     if let Some(custom_bounds) = attrs.bounds() {
         custom_bounds.extend_where_clause(&mut where_clause);
@@ -64,14 +74,6 @@ pub fn make_where_clause<'a>(
         }
 
         return Ok(where_clause);
-    }
-
-    for lifetime_param in generics.lifetimes() {
-        // Only the lifetime itself: a `LifetimeParam` may carry its own bounds (`'b: 'a`).
-        let lifetime = &lifetime_param.lifetime;
-        where_clause
-            .predicates
-            .push(parse_quote!(#lifetime: 'static))
     }
 
     let ty_params_ids = generics
